@@ -11,9 +11,11 @@ RULE = ("cases: Rational<i32>, <i64>, <i128>; every pair of fractions a/b, c/d w
         "[-k,k] minus 0 (k = 8 thorough; 6 for i64 and 4 for i32/i128 quick) through + - * / (by-value, by-reference, assigning and "
         "assigning-by-reference forms, which must agree), cmp (with partial_cmp, <, <=, >, >=, reversed cmp and == consistency), "
         "== (with DefaultHasher equality and HashSet membership), and every such fraction through new, neg, floor, ceil, "
-        "Display/Debug; boundary-biased samples up to the guard 2^(bits/2-2) (2^14, 2^30, 2^62): shared factors across the two "
+        "Display/Debug; new_int(n) against new(n,1) through ==, cmp, Hash; cmp lines also check !=, min, max, both argument orders and "
+        "reflexivity; Fibonacci/Lucas-ratio operands (up to ~2n Euclid rounds inside norm with operands below the guard; depth measured "
+        "in the histogram keys euclid_rounds_*); boundary-biased samples up to the guard 2^(bits/2-2) (2^14, 2^30, 2^62): shared factors across the two "
         "fractions, equal values written differently, neighbours, integer values, powers of two and +-1; a small stream outside "
-        "the guard and at MIN / zero denominators where only the machine model (overflow and division panics) is compared. "
+        "the guard and at MIN / zero denominators where only the machine model is compared (any panic = `panic`). "
         "non-trivial = distinct case inside the property's domain (spec answer not `any`) with some operand of magnitude > 1")
 ASSUMPTIONS = [
     "the Lean model of rlib_rational is hand-written; it is tied to the code by running both on the same cases",
@@ -23,7 +25,7 @@ ASSUMPTIONS = [
 ]
 MANIFEST = {
     "level": "proof",
-    "text": ("Lean 4 theorems over the model of Rational<T>: new/+/-/*/÷/neg return the exact value in ℚ (core Lean `Rat`) in lowest terms "
+    "text": ("Lean 4 theorems over the model of Rational<T>: new_int is canonical and equals new(n,1); new/+/-/*/÷/neg return the exact value in ℚ (core Lean `Rat`) in lowest terms "
              "with positive denominator for every input with non-zero denominators (negative denominators included); canonical forms are "
              "unique, so structural == and the derived Hash coincide with numeric equality; cmp is the numeric order; floor and ceil are "
              "the integer floor and ceiling; under the magnitude guard 2^(bits/2-2) no checked machine operation overflows (the machine "
